@@ -910,3 +910,46 @@ package cache
 //@ func (*TraitEntry).ExpireAt
 //@   props C16
 //@   replay entryrace
+
+// ---------------------------------------------------------------------------------------------------
+// Restore (C13), relative to the assumed encoding/gob contract: after reading records p0..pos of the stream, the
+// cache holds, for each of them, an entry equal to the record in every field - including fields that are zero in
+// the record (gob omits those) - and no stored entry is disturbed by decoding a later record.
+// Precondition for sharded targets: the records have pairwise distinct key hashes (a sharded map cannot hold two
+// colliding keys anyway: C09 "a collision may at most cost a miss").
+// ---------------------------------------------------------------------------------------------------
+
+//@ def recIs(p, j) := p != nil && bytes(p.K) == gobK(j) && p.V == gobV(j) && p.E == gobE(j) && p.C == gobC(j)
+//@ def recIsOf(p, j) := p != nil && bytes(p.K) == gobK(j) && p.V == gobVOf(j) && p.E == gobE(j) && p.C == gobC(j)
+//@ def recStored(c, j) := hasH(c, hash(gobK(j))) && recIs(bucket(c, hash(gobK(j))).data[hash(gobK(j))], j)
+//@ def recStoredOf(c, j) := hasH(c, hash(gobK(j))) && recIsOf(bucket(c, hash(gobK(j))).data[hash(gobK(j))], j)
+//@ def recSMStored(c, j) := sHas(c, gobK(j)) && dyntype(sGet(c, gobK(j)), *TraitEntry) && recIs(sEnt(c, gobK(j)), j)
+//@ def distinctHashes() := forall a int :: forall b int :: 0 <= a && a < b && b < gobLen() ==> hash(gobK(a)) != hash(gobK(b))
+//@ def distinctKeys() := forall a int :: forall b int :: 0 <= a && a < b && b < gobLen() ==> gobK(a) != gobK(b)
+//@ def nonEmptyKeys() := forall a int :: 0 <= a && a < gobLen() ==> len(gobK(a)) > 0
+
+//@ func (*ShardedMap).Restore
+//@   props C13 C09
+//@   requires c.shardedMap != nil && repOK(c.shardedMap) && distinctHashes() && nonEmptyKeys()
+//@   requires gobPos() <= gobLen() && gobLen() < 4611686018427387904
+//@   let p0 := old(gobPos())
+//@   ensures [C13.restore.count] result0 == gobPos() - p0
+//@   ensures [C13.restore.eof] result1 == nil ==> gobPos() == gobLen()
+//@   ensures [C13.restore.entries] forall j int :: p0 <= j && j < gobPos() ==> recStored(c.shardedMap, j)
+//@   loop 1 invariant [C13.restore.inv.count] n == gobPos() - p0 && n >= 0 && p0 <= gobPos() && gobPos() <= gobLen()
+//@   loop 1 invariant [C13.restore.inv.entries] forall j int :: p0 <= j && j < gobPos() ==> recStored(c.shardedMap, j)
+//@   loop 1 invariant [C13.restore.inv.rep] repOK(c.shardedMap)
+//@   replay restore backend:=sharded
+
+//@ func (*SyncMap).Restore
+//@   props C13 C09
+//@   requires c.syncMap != nil && sRepOK(c.syncMap) && distinctKeys() && nonEmptyKeys()
+//@   requires gobPos() <= gobLen() && gobLen() < 4611686018427387904
+//@   let p0 := old(gobPos())
+//@   ensures [C13.sm.restore.count] result0 == gobPos() - p0
+//@   ensures [C13.sm.restore.eof] result1 == nil ==> gobPos() == gobLen()
+//@   ensures [C13.sm.restore.entries] forall j int :: p0 <= j && j < gobPos() ==> recSMStored(c.syncMap, j)
+//@   loop 1 invariant [C13.sm.restore.inv.count] n == gobPos() - p0 && n >= 0 && p0 <= gobPos() && gobPos() <= gobLen()
+//@   loop 1 invariant [C13.sm.restore.inv.entries] forall j int :: p0 <= j && j < gobPos() ==> recSMStored(c.syncMap, j)
+//@   loop 1 invariant [C13.sm.restore.inv.rep] sRepOK(c.syncMap)
+//@   replay restore backend:=syncmap
